@@ -29,11 +29,11 @@ from harness.common import ImplRaised, drv, errclass, impl, run_check
 PID = "C16"
 THEOREMS = ["columns_any_layout", "columns_legacy_fails", "legacy_eq_of_ascending",
             "dump_eq_query", "dump_whole_stored", "dumpRows_eq", "engineChunks_flatten",
-            "one_based_ids_effect", "one_based_ids_plain", "one_based_starts_effect", "join_effect",
+            "dump_option_effect", "one_based_ids_effect", "one_based_ids_plain", "one_based_starts_effect", "join_effect",
             "balanced_effect", "annotate_effect", "fill_lower_square", "fill_lower_symm", "header_effect",
             "range_effect", "row_columns", "table_columns_effect", "projectRow_spec",
             "load_dump_coo", "load_dump_bg2", "bin_start_facts", "bins_order", "validateChunk_perm",
-            "cooRec_of_layout", "bg2Rec_of_layout", "pairs_any_layout", "pairs_layout_independent",
+            "cooRec_of_layout", "bg2Rec_of_layout", "pairs_any_layout", "pairs_layout_independent", "cloadPairs_eq_spec_partial",
             "parseFieldParam_spec", "parseFieldParam_refusals", "splitOn_joinWith"]
 LEVELS = {"constants": "unit", "dump": "top", "dump_layout": "unit", "dump_refuse": "top", "table": "top",
           "load": "top", "pairs": "top", "pandas_primitive": "unit", "field_param": "unit", "zoomify_spec": "top"}
@@ -57,10 +57,11 @@ DESCRIBE = {
 }
 RULE = ("dump: stores of n<=6 bins over 1-2 chromosomes (uniform and variable widths), symmetric-upper and square, a `weight` column "
         "with one NaN, one extra bin column (float or int); one case = (store, region setting in {none, -r, -r -r2 above / below / "
-        "straddling the diagonal}) with ALL 128 option combinations x chunksize/float-format variants {(1,.17g,NA),(3,g,''),(default,.17g,nan)}; "
-        "quick 2 stores, thorough 12. load: dump->load for {coo,bg2} x {zero,one}-based x chunksize {1,2,big} + shuffled + --field variants per "
-        "store (quick 4 stores, thorough 16). pairs: all 24 permutations + 7-column non-monotone layouts + value field in front, zero/one-based x "
-        "symmetric/square. non-trivial = store with >=2 pixels / >=2 records; distinct by canonical JSON of the case")
+        "straddling / nested}, one of the variants (chunksize, float-format, na-rep) in {(1,.17g,NA),(3,default g,''),(default,.17g,nan)}) with "
+        "ALL 128 option combinations inside; quick 2 stores, thorough 22. load: dump->load for {coo,bg2} x {zero,one}-based x chunksize "
+        "{1,2,big} + shuffled + --count-as-float + --field variants per store (quick 4 stores, thorough 16). pairs: all 24 permutations + "
+        "6/7-column non-monotone layouts + value field in front, zero/one-based x symmetric/square (quick 4, thorough 12 record sets). "
+        "non-trivial = store with >=2 pixels / >=2 records; distinct by canonical JSON of the case")
 EXHAUSTIVE = {"quick": False, "thorough": False}
 TRUSTED = ["character-level CSV reading/writing and number formatting are pandas (to_csv float_format % x; read_csv tokenisation); "
            "tokens matching -?[0-9]+ are integer cells, everything else is a string cell",
@@ -378,14 +379,16 @@ def _dump_layout(case):
                 lines = out.split("\n")
                 if lines and lines[-1] == "":
                     lines.pop()
-                box = a["box"]
-                nonempty = box[1] > box[0] and box[3] > box[2]
-                if o["header"] and nonempty:
+                # the header comes with the first engine chunk: a selection whose rows hold no stored pixel has no
+                # chunk (`get_spans` is a free unit), so the header is demanded only when there are data rows
+                if o["header"] and a["model"]:
                     if not lines or lines[0].split("\t") != a["columns"]:
                         return {"mismatch": True, **ctx, "what": "header line", "impl": lines[:1], "model": a["columns"]}
                     lines = lines[1:]
                 elif o["header"] and lines:
-                    lines = lines[1:] if lines[0].split("\t") == a["columns"] else lines
+                    if lines[0].split("\t") != a["columns"]:
+                        return {"mismatch": True, **ctx, "what": "header line", "impl": lines[:1], "model": a["columns"]}
+                    lines = lines[1:]
                 if not a["use_fill"]:
                     want = _expected_maps(a["model"], a["columns"], "%.17g", "NA")
                     got = [ln.split("\t") for ln in lines]
@@ -689,9 +692,12 @@ def _pandas_primitive(case):
         got = [{"ok": sorted([nm, int(df[nm].iloc[k])] for nm in names)} for k in range(len(rows))]
     except Exception as e:  # noqa
         got = [{"err": errclass(e)}] * len(rows)
+    dup = len(set(usecols)) != len(usecols)
     for row, g, a in zip(rows, got, ans):
         want = a["pandas"]
         w = {"ok": sorted(want["ok"])} if "ok" in want else {"err": "ValueError"}
+        if dup and "err" in g and "err" in w:
+            continue    # repeated column numbers are outside the domain (not injective): only "no record is produced" is compared
         if g != w:
             return {"mismatch": True, "row": row, "usecols": usecols, "names": names, "impl": g, "model": w,
                     "note": "pandas assigns `names` to the selected columns in ascending column order"}
@@ -967,6 +973,9 @@ def cases(tier, rng):
                 (5, True, "nodiag", True, "int"), (6, True, "onerow", False, "float"), (3, True, "empty", False, "int")]
     else:
         plan = [(5, True, "dense-random", True, "float"), (4, False, "dense-random", False, "int")]
+    if thorough:
+        plan += [(rng.randint(2, 6), rng.random() < 0.6, rng.choice(["random", "dense-random", "gaps", "onerow", "nodiag"]),
+                  rng.random() < 0.5, rng.choice(["float", "int"])) for _ in range(10)]
     dump_stores = []
     for n, symm, kind, var, ek in plan:
         st = _gen_store(rng, n, symm, kind, var, ek)
